@@ -143,18 +143,32 @@ func c02ErrFor(k, salt int) *c02Err {
 	return &c02Err{Code: codes[(k+salt)%len(codes)], Msg: 11 + k}
 }
 
-// c02Secondary fills the cycling dimensions from an index.
-func c02Secondary(in *c02In, idx int) {
+// c02Secondary fills the cycling dimensions: those that are part of the built API (placement, registration,
+// scopes, authorizer present) from the structure index sidx, those of the request (parameter validity, what the
+// authorizer answers) from the case index idx.
+func c02Secondary(in *c02In, sidx, idx int) {
 	h := idx*2654435761 + 12345
 	if h < 0 {
 		h = -h
 	}
-	in.Where = []string{"op", "global", "op-over-global"}[h%3]
-	h /= 3
+	g := sidx*40507 + 977
+	if g < 0 {
+		g = -g
+	}
+	in.Where = []string{"op", "global", "op-over-global"}[g%3]
+	g /= 3
 	in.BindOK = h%4 != 0
 	h /= 4
-	switch h % 5 {
-	case 0:
+	azKind := h % 4
+	if g%5 == 0 {
+		azKind = -1
+	} else {
+		azKind++
+	}
+	g /= 5
+	h /= 4
+	switch azKind {
+	case -1:
 	case 1:
 		in.HasAz = true
 	case 2:
@@ -173,16 +187,16 @@ func c02Secondary(in *c02In, idx int) {
 		}
 	case 4:
 		in.HasAz = true
-		pp := 1 + (h/5)%3
+		pp := 1 + h%3
 		in.Deny = []c02Deny{{P: &pp, Err: c02Err{403, 33}}}
 	}
-	h /= 5
-	if h%7 == 0 {
-		in.Unreg = []int{(h / 7) % 3}
-	} else if h%7 == 1 {
-		in.Undef = []int{(h / 7) % 3}
+	if g%7 == 0 {
+		in.Unreg = []int{(g / 7) % 3}
+	} else if g%7 == 1 {
+		in.Undef = []int{(g / 7) % 3}
 	}
-	h /= 7
+	g /= 7
+	h = g
 	// scopes: none, or a pattern
 	if h%3 != 0 {
 		for i := range in.Alts {
@@ -201,7 +215,7 @@ func c02Secondary(in *c02In, idx int) {
 	}
 }
 
-func c02EnumCase(altIdx []int, vec int, idx int) c02In {
+func c02EnumCase(altIdx []int, vec int, sidx, idx int) c02In {
 	in := c02In{Explicit: true}
 	for _, ai := range altIdx {
 		var a c02Alt
@@ -222,7 +236,7 @@ func c02EnumCase(altIdx []int, vec int, idx int) c02In {
 		}
 		in.Outs = append(in.Outs, o)
 	}
-	c02Secondary(&in, idx)
+	c02Secondary(&in, sidx, idx)
 	return in
 }
 
@@ -235,12 +249,14 @@ func (c02) Enumerate(tier string) []any {
 		maxLen = 3
 	}
 	var rec func(cur []int)
+	sidx := 0
 	rec = func(cur []int) {
 		if len(cur) > 0 {
 			for vec := 0; vec < 64; vec++ {
-				out = append(out, c02EnumCase(cur, vec, idx))
+				out = append(out, c02EnumCase(cur, vec, sidx, idx))
 				idx++
 			}
+			sidx++
 		}
 		if len(cur) == maxLen {
 			return
@@ -261,7 +277,7 @@ func (c02) Gen(r *rand.Rand, tier string, i int) any {
 		for j := 0; j < n; j++ {
 			alts = append(alts, r.Intn(len(c02OrderedAlts)))
 		}
-		return c02EnumCase(alts, r.Intn(64), r.Intn(1<<20))
+		return c02EnumCase(alts, r.Intn(64), r.Intn(1<<12), r.Intn(1<<20))
 	}
 	in := c02In{Explicit: r.Intn(10) < 7, BindOK: r.Intn(5) != 0}
 	in.Where = []string{"op", "global", "op-over-global"}[r.Intn(3)]
